@@ -462,6 +462,10 @@ class Check:
                 batch.append(case)
             flush()
             for case in self.gen(self.tier, rng):
+                if not self.accept_case(case):
+                    # the driver cannot run this case on the tree as it is (see accept_case of the check)
+                    report["extra"]["cases_skipped_by_the_driver"] = report["extra"].get("cases_skipped_by_the_driver", 0) + 1
+                    continue
                 batch.append(case)
                 if len(batch) >= BATCH:
                     flush()
@@ -575,6 +579,11 @@ class Check:
         return " ".join(f"VF.{self.ident}.{os.path.basename(f)[:-2]}" for f in fs)
 
     def model_should_hold(self, case):
+        return True
+
+    def accept_case(self, case):
+        """False: the harness cannot drive this case against the tree as it is (e.g. a configuration outside the
+        public constructor's ranges when only the public path is available); counted in the evidence, not judged"""
         return True
 
     def corpus(self):
